@@ -22,6 +22,18 @@ fn('dsplib::(anon)::_facfft', FA, serves=['C01'], trusted=True, assigns=['x', 'm
    notes='assumed: in-place mixed-radix transform of x[0..n) using mem[0..n) as scratch (Cooley-Tukey recursion, not lowered)')
 
 # a const solve() writes nothing reachable from the plan (plans may be shared between threads): frame = result only
+# the mixed-radix plan: size, twiddle table exp(-2 pi i k / n) for every k < n; the factorisation tree is built by a recursive
+# constructor over raw pointers (no contract language for recursive heap structures here): assumed to touch only the new tree
+fn('dsplib::PlanTree::PlanTree', FA, key='PlanTree::PlanTree', serves=['C01'], trusted=True, assigns=['this'], may_throw=True,
+   ensures=[('accepted_size', 'n >= 2')],
+   notes='assumed: building the factorisation tree (recursive, raw new / delete) touches nothing but the new tree and returns only for n >= 2 (its first statement is that assertion)')
+from contracts.mathfun import LIBM as _LIBM2
+_FENV = dict(ENV)
+_FENV.update({k: v for k, v in _LIBM2.items() if k not in _FENV})
+fn('dsplib::FactorFFTPlan::FactorFFTPlan', FA, key='FactorFFTPlan::FactorFFTPlan', serves=['C10', 'C01', 'C05'], assigns=['this'], may_throw=True, extra_env=_FENV,
+   requires=[('size', 'And(n >= -1073741824, n <= 1073741824)')],
+   ensures=[('invariant', 'And(_n >= 1, _twiddle.len == _n)'), ('size', '_n == n'),
+            ('twiddles', 'forall(lambda k: Implies(And(0 <= k, k < n), And(_twiddle[k].re == COS(-2 * PI * ToReal(k) / ToReal(n)), _twiddle[k].im == SIN(-2 * PI * ToReal(k) / ToReal(n)))))')])
 fn('dsplib::FactorFFTPlan::solve', FA, serves=['C09', 'C05', 'C01'], pure=True, extra_env=ENV,
    requires=[('invariant', 'And(_n >= 1, _twiddle.len == _n)')],
    throws='x.len != _n',
